@@ -136,6 +136,9 @@ TEMPLATES = [
     ("01", {}, [], "leading zero"),
     ("'\\q'", {}, [], "bad escape"),
     ("'\\ud800'", {}, [], "bad surrogate"),
+    ("\ufeff{a: 1}", {}, [], "byte order mark (zero display width)"), ("\u0301", {}, [], "lone combining mark"), ("'a' + \u0730", {}, [], "combining mark operand"),
+    ("{a: 1}\u200b", {}, [], "zero width space at EOF"), ("local x\u0301 = 1; x", {}, [], "combining mark after identifier"), ("[1, \u200d]", {}, [], "zero width joiner"),
+    ("'x' + \u202e", {}, [], "bidi control"), ("import 'zw.libsonnet'", {"zw.libsonnet": "\ufeff1"}, [], "BOM in imported file"),
     ("|||\n  a\n", {}, [], "text block: EOF after a line break"),
     ("|||\n  a\n b", {}, [], "text block: EOF in an under-indented last line"),
     ("|||\n  a\r\n", {}, [], "text block: EOF after CRLF"),
@@ -161,7 +164,7 @@ def failing_case(draw):
     mt = draw(st.integers(0, 12))
     color = draw(st.booleans())
     if mode <= 1:
-        return {"kind": "template", "i": draw(st.integers(0, len(TEMPLATES) - 1)), "prefix": draw(st.sampled_from(["", "", "\n", "\r\n", "// c\n", "\t", "/* é */ ", "\n\n\n"])),
+        return {"kind": "template", "i": draw(st.integers(0, len(TEMPLATES) - 1)), "prefix": draw(st.sampled_from(["", "", "\n", "\r\n", "// c\n", "\t", "/* é */ ", "\n\n\n", "/* \u0301\u200b */ ", "'\ufeff' + "])),
                 "cli": cli, "max_trace": mt, "color": color}
     if mode == 2:
         return {"kind": "tree", "tree": draw(A.syntax_trees(max_leaves=10)), "choices": draw(st.lists(st.integers(0, 1000), min_size=6, max_size=20)),
